@@ -28,6 +28,7 @@ will trigger as readable in `select <select.select>`.
 import sys
 import os
 import socket
+import threading
 
 
 def make_pipe():
@@ -119,20 +120,25 @@ class WindowsPipe:
 
 
 class OrPipe:
-    def __init__(self, pipe):
+    def __init__(self, pipe, lock=None):
         self._set = False
         self._partner = None
         self._pipe = pipe
+        # shared by both halves: each half is driven under a different
+        # BufferedPipe lock, so the pair needs its own mutual exclusion.
+        self._lock = lock if lock is not None else threading.Lock()
 
     def set(self):
-        self._set = True
-        if not self._partner._set:
-            self._pipe.set()
+        with self._lock:
+            self._set = True
+            if not self._partner._set:
+                self._pipe.set()
 
     def clear(self):
-        self._set = False
-        if not self._partner._set:
-            self._pipe.clear()
+        with self._lock:
+            self._set = False
+            if not self._partner._set:
+                self._pipe.clear()
 
 
 def make_or_pipe(pipe):
@@ -141,8 +147,9 @@ def make_or_pipe(pipe):
     affect the real pipe. if either returned pipe is set, the wrapped pipe
     is set. when both are cleared, the wrapped pipe is cleared.
     """
-    p1 = OrPipe(pipe)
-    p2 = OrPipe(pipe)
+    lock = threading.Lock()
+    p1 = OrPipe(pipe, lock)
+    p2 = OrPipe(pipe, lock)
     p1._partner = p2
     p2._partner = p1
     return p1, p2
